@@ -93,7 +93,12 @@ def final_oracle(ctx):
         ctx.oracle_checks += 1
         ctx.extra["fresh_replays"] += 1
         if not line_equal(got, want, 1e-12):
-            fails.append({"kind": "history-dependent-result", "in_history": got, "fresh_process": want,
+            # all units of a history share one dimension: two factors on the same side of the fraction are
+            # the planner's ambiguous-pairing class (see convcommon.classify, K9)
+            sides = [x for x in actions[-1] if isinstance(x, dict)]
+            amb = any(sum(1 for _n, e in sd["f"] if e > 0) >= 2 or sum(1 for _n, e in sd["f"] if e < 0) >= 2 for sd in sides)
+            fails.append({"kind": "history-dependent-result", "class": "K9-ambiguous-pairing" if amb else None,
+                          "in_history": got, "fresh_process": want,
                           "query": actions[-1], "declarations": [a for a in actions[:-1] if a[0] != "query" and a[0] != "cmp"],
                           "earlier_queries": sum(1 for a in actions[:-1] if a[0] in ("query", "cmp"))})
     return fails
